@@ -327,9 +327,19 @@ func refineNonZero() []Program {
 			if d.field != "" {
 				fields = append(fields, d.field)
 			}
-			vars := []string{"s : slice base.u32[1 ..= 8]", "e : base.u32[..= 8]"}
-			if strings.Contains(d.tag, "zero allowed") {
-				vars[0] = "s : slice base.u32[..= 8]"
+			// Only the programs that use them declare `s` and `e`: a local of
+			// type `slice base.u32[1 ..= 8]` is itself a near-miss for checkers
+			// that demand zero within the element refinement of every local.
+			vars := []string{}
+			if strings.Contains(u.tag, "slice") {
+				if strings.Contains(d.tag, "zero allowed") {
+					vars = append(vars, "s : slice base.u32[..= 8]")
+				} else {
+					vars = append(vars, "s : slice base.u32[1 ..= 8]")
+				}
+			}
+			if strings.Contains(u.tag, "copy out") {
+				vars = append(vars, "e : base.u32[..= 8]")
 			}
 			if d.local != "" {
 				vars = append(vars, d.local)
